@@ -26,7 +26,7 @@ fn sizes(shape: &Shape, origin: Origin) -> (u32, u32) {
         Shape::Osu { circles, sliders, spinners, .. } => (circles + sliders + spinners, circles + sliders + spinners),
         Shape::Taiko { max_combo } => (max_combo, max_combo),
         Shape::Catch { fruits, droplets, .. } => (fruits + droplets, fruits + droplets),
-        Shape::Mania { objects, holds } => (objects, objects + if origin == Origin::Lazer { holds.min(objects) } else { 0 }),
+        Shape::Mania { objects, holds } => (objects, objects + if origin.mania_classic() { 0 } else { holds.min(objects) }),
     }
 }
 
@@ -34,7 +34,7 @@ fn osu_origin(shape: &Shape, origin: Origin) -> OsuScoreOrigin {
     let Shape::Osu { sliders, large_ticks, .. } = *shape else { return OsuScoreOrigin::Stable };
     match origin {
         Origin::Stable => OsuScoreOrigin::Stable,
-        Origin::Lazer => OsuScoreOrigin::WithSliderAcc { max_large_ticks: large_ticks, max_slider_ends: sliders },
+        Origin::Lazer | Origin::LazerClassicHeadAcc => OsuScoreOrigin::WithSliderAcc { max_large_ticks: large_ticks, max_slider_ends: sliders },
         Origin::LazerClassic => OsuScoreOrigin::WithoutSliderAcc { max_large_ticks: sliders + large_ticks, max_small_ticks: sliders },
     }
 }
@@ -45,7 +45,7 @@ fn accuracy_of(shape: &Shape, origin: Origin, s: &ScoreState) -> f64 {
         Shape::Osu { .. } => OsuScoreState::from(s.clone()).accuracy(osu_origin(shape, origin)),
         Shape::Taiko { .. } => TaikoScoreState::from(s.clone()).accuracy(),
         Shape::Catch { .. } => CatchScoreState::from(s.clone()).accuracy(),
-        Shape::Mania { .. } => ManiaScoreState::from(s.clone()).accuracy(origin != Origin::Lazer),
+        Shape::Mania { .. } => ManiaScoreState::from(s.clone()).accuracy(origin.mania_classic()),
     }
 }
 
@@ -85,7 +85,7 @@ fn achievable(shape: &Shape, origin: Origin, misses: u32, template: &ScoreState)
             }
         }
         Shape::Mania { .. } => {
-            let classic = origin != Origin::Lazer;
+            let classic = origin.mania_classic();
             for n320 in 0..=rem {
                 for n300 in 0..=rem - n320 {
                     for n200 in 0..=rem - n320 - n300 {
@@ -105,7 +105,12 @@ fn achievable(shape: &Shape, origin: Origin, misses: u32, template: &ScoreState)
 
 /// The oracle for one (shape, origin, misses, priority, target).
 fn check_target(shape: &Shape, origin: Origin, misses: Option<u32>, worst: bool, target: f64, cache: &mut Option<(u32, Vec<f64>)>) -> Result<bool, String> {
-    let p = Provided { accuracy: Some(target), misses, worst_case: Some(worst), ..Provided::default() };
+    check_target_via(shape, origin, misses, worst, target, cache, false)
+}
+
+#[allow(clippy::too_many_arguments)]
+fn check_target_via(shape: &Shape, origin: Origin, misses: Option<u32>, worst: bool, target: f64, cache: &mut Option<(u32, Vec<f64>)>, via_setters: bool) -> Result<bool, String> {
+    let p = Provided { accuracy: Some(target), misses, worst_case: Some(worst), via_setters, ..Provided::default() };
     let s = p.apply(shape.attrs(), origin).generate_state();
     let (n_obj, n_total) = sizes(shape, origin);
     let expect_misses = misses.unwrap_or(0).min(n_obj);
@@ -202,13 +207,13 @@ fn enumerate(thorough: bool) -> EnumReport {
                 let mut nontrivial = 0u64;
                 let mut failure = None;
                 let mut sample = None;
-                'outer: for origin in [Origin::Stable, Origin::Lazer, Origin::LazerClassic] {
+                'outer: for origin in [Origin::Stable, Origin::Lazer, Origin::LazerClassic, Origin::LazerClassicHeadAcc] {
                     // origins that do not affect the mode are redundant
                     if matches!(shape, Shape::Taiko { .. } | Shape::Catch { .. }) && origin != Origin::Lazer {
                         continue;
                     }
-                    if matches!(shape, Shape::Mania { .. }) && origin == Origin::LazerClassic {
-                        continue; // classic == stable for mania accuracy
+                    if matches!(shape, Shape::Mania { .. }) && origin == Origin::LazerClassicHeadAcc {
+                        continue; // for mania any Classic mod means the classic judgement model (covered by LazerClassic)
                     }
                     let (n_obj, _) = sizes(shape, origin);
                     for misses in 0..=n_obj + 1 {
@@ -223,7 +228,8 @@ fn enumerate(thorough: bool) -> EnumReport {
                             }
                             for &target in &targets {
                                 evals += 1;
-                                match check_target(shape, origin, Some(misses), worst, target, &mut cache) {
+                                // the origin is expressed through a Difficulty and through the Performance setters alternately
+                                match check_target_via(shape, origin, Some(misses), worst, target, &mut cache, evals % 2 == 0) {
                                     Ok(nt) => {
                                         if nt {
                                             nontrivial += 1;
@@ -262,7 +268,7 @@ fn enumerate(thorough: bool) -> EnumReport {
     EnumReport {
         name: "small-shapes-exhaustive",
         rule: format!(
-            "exhaustive enumeration of every small attribute shape (osu: circles 0..=8 x sliders 0..=3 x large ticks 0..=2; taiko: max_combo 0..=12; catch: fruits 0..=6 x droplets 0..=3 x tiny 0..=6; mania: objects 0..={} x hold notes 0..=3) x origin (stable/lazer/lazer+Classic where it matters) x every miss count 0..=n_obj+1 x both priorities x the critical target grid (every achievable accuracy of the shape, midpoints of consecutive ones, each +-1e-7 percent, 0, 100, 0.5% lattice). Oracle: brute force over every distribution of hit results over the same objects with the generated miss count (slider-part hits as the state reports): misses == min(given, n_obj), the state distributes exactly N judgements, and |acc(state) - target| <= min over all distributions + 1e-9. Each (shape, origin, misses, priority, target) tuple is distinct by construction; non-trivial: N - misses >= 2 and target strictly between the extreme achievable accuracies.",
+            "exhaustive enumeration of every small attribute shape (osu: circles 0..=8 x sliders 0..=3 x large ticks 0..=2; taiko: max_combo 0..=12; catch: fruits 0..=6 x droplets 0..=3 x tiny 0..=6; mania: objects 0..={} x hold notes 0..=3) x origin (stable / lazer / lazer+Classic / lazer+Classic with slider-head accuracy switched back on, where it matters; expressed alternately through a Difficulty and through the Performance::lazer/mods setters) x every miss count 0..=n_obj+1 x both priorities x the critical target grid (every achievable accuracy of the shape, midpoints of consecutive ones, each +-1e-7 percent, 0, 100, 0.5% lattice). Oracle: brute force over every distribution of hit results over the same objects with the generated miss count (slider-part hits as the state reports): misses == min(given, n_obj), the state distributes exactly N judgements, and |acc(state) - target| <= min over all distributions + 1e-9. Each (shape, origin, misses, priority, target) tuple is distinct by construction; non-trivial: N - misses >= 2 and target strictly between the extreme achievable accuracies.",
             if thorough { 8 } else { 7 }
         ),
         evaluations,
@@ -294,7 +300,7 @@ fn case_large(t: &mut Tape, info: &mut CaseInfo) -> Result<(), String> {
             Shape::Mania { objects, holds: t.range(0, 4).min(i64::from(objects)) as u32 }
         }
     };
-    let origin = *t.pick(&[Origin::Lazer, Origin::Stable, Origin::LazerClassic]);
+    let origin = *t.pick(&[Origin::Lazer, Origin::Stable, Origin::LazerClassic, Origin::LazerClassicHeadAcc]);
     let (n_obj, _) = sizes(&shape, origin);
     let misses = match t.weighted(&[3, 5, 1]) {
         0 => None,
@@ -313,7 +319,8 @@ fn case_large(t: &mut Tape, info: &mut CaseInfo) -> Result<(), String> {
         info.sample = Some(json!({"shape": shape.describe(), "origin": format!("{origin:?}"), "misses": misses, "worst_case": worst, "target_accuracy": target}));
         info.direct = Some(json!({"shape": shape_json(&shape), "origin": format!("{origin:?}"), "misses": misses, "worst_case": worst, "target": format!("{target:?}")}));
     }
-    info.nontrivial = check_target(&shape, origin, misses, worst, target, &mut None)?;
+    let via_setters = t.coin();
+    info.nontrivial = check_target_via(&shape, origin, misses, worst, target, &mut None, via_setters)?;
     info.comparisons += 1;
     info.set_key(&format!("{shape:?}{origin:?}{misses:?}{worst}{target}"));
     Ok(())
